@@ -548,8 +548,140 @@ def run_one(ctl: explorer.Ctl, cfg: Dict[str, Any]) -> Dict[str, Any]:
     return obs
 
 
+# ---------------------------------------------------------------------------
+# two calls in flight at the same time / one after the other, sharing the caller's params dict
+# ---------------------------------------------------------------------------
+PAIR_CODES = [-32601, -32603, 0, -32000]
+PAIR_PARAMS = [{}, {"a": None, "n": [1]}, {"_meta": {"x": 1}, "k": "v"}]
+PAIR_ANSWERS = ([("E", a, "E", b) for a in range(len(PAIR_CODES)) for b in range(len(PAIR_CODES))]
+                + [("E", a, "R", None) for a in range(len(PAIR_CODES))] + [("R", None, "E", b) for b in range(len(PAIR_CODES))])
+
+
+def _run_pair(cfg) -> Dict[str, Any]:
+    import asyncio
+    import copy
+    import math
+
+    import anyio
+    from chuk_mcp.protocol.messages.send_message import send_message
+
+    from .. import seams
+    from ..vloop import new_loop
+
+    ka, ca, kb, cb_ = PAIR_ANSWERS[cfg["answers"]]
+    answers = [(ka, None if ca is None else PAIR_CODES[ca]), (kb, None if cb_ is None else PAIR_CODES[cb_])]
+    use_cb = cfg["callbacks"]  # [bool, bool]
+    base = PAIR_PARAMS[cfg["params"]]
+    shared = copy.deepcopy(base)
+    plist = [shared, shared] if cfg["sharing"] == "shared" else [copy.deepcopy(base), copy.deepcopy(base)]
+    mode = cfg["mode"]  # "A-first" | "B-first" (concurrent, order of the answers) | "sequential"
+    loop = new_loop(horizon=60)
+    q = seams.Quiescence(loop)
+    outs: List[Any] = [None, None]
+    state: Dict[str, Any] = {"reqs": [None, None], "send_r": [None, None]}
+
+    with sched.patched_uuid():
+        async def main():
+            async def progress(p, t, m):
+                return None
+
+            async def one(i):
+                send_w, recv_w = anyio.create_memory_object_stream(math.inf)
+                send_r, recv_r = anyio.create_memory_object_stream(math.inf)
+                state["send_r"][i] = send_r
+
+                async def watch():
+                    async for msg in recv_w:
+                        w = hd.dump(msg)
+                        if isinstance(w, dict) and "method" in w and w.get("id") is not None and state["reqs"][i] is None:
+                            state["reqs"][i] = w
+
+                wt = asyncio.ensure_future(watch())
+                kw: Dict[str, Any] = {"timeout": 5.0}
+                if use_cb[i]:
+                    kw["progress_callback"] = progress
+                try:
+                    r = await send_message(recv_r, send_w, "tools/call", plist[i], **kw)
+                    outs[i] = ("returned", r)
+                except BaseException as e:  # noqa: BLE001
+                    if isinstance(e, (KeyboardInterrupt, SystemExit)):
+                        raise
+                    hd._strip_tracebacks(e)
+                    outs[i] = ("raised", e)
+                send_w.close()
+                try:
+                    await asyncio.wait_for(wt, 5)
+                except BaseException:  # noqa: BLE001
+                    pass
+
+            def answer(i):
+                req = state["reqs"][i]
+                if req is None:
+                    return
+                kind, code = answers[i]
+                if kind == "E":
+                    wire = {"jsonrpc": "2.0", "id": req["id"], "error": {"code": code, "message": MSG}}
+                else:
+                    wire = {"jsonrpc": "2.0", "id": req["id"], "result": {"ok": i}}
+                state["send_r"][i].send_nowait(hd.incoming(wire))
+
+            if mode == "sequential":
+                for i in (0, 1):
+                    t = asyncio.ensure_future(one(i))
+                    await q.settle()
+                    answer(i)
+                    await q.settle()
+                    await asyncio.wait_for(t, 20)
+            else:
+                ts = [asyncio.ensure_future(one(0))]
+                await q.settle()
+                ts.append(asyncio.ensure_future(one(1)))
+                await q.settle()
+                for i in ((0, 1) if mode == "A-first" else (1, 0)):
+                    answer(i)
+                    await q.settle()
+                await asyncio.wait_for(asyncio.gather(*ts), 20)
+
+        status, val = loop.run_main(main())
+        errors = loop.collect_errors()
+        loop.abandon()
+    viol: List[dict] = []
+    where = (f"two send_message calls ({mode}), params dict {cfg['sharing']} between them (initially {base}), "
+             f"progress callbacks {use_cb}, answers {answers}")
+    scen = {"scenario": "two-calls", "sharing": cfg["sharing"], "mode": "sequential" if mode == "sequential" else "concurrent"}
+    if status != "ok":
+        viol.append({"sig": {"class": "did-not-finish", **scen, "status": status}, "msg": f"{status}: {val!r}; {where}"})
+        return {"outcome": "pair:" + status, "violations": viol, "counters": {"pair_scenarios": 1}}
+    got = []
+    for i, (kind, code) in enumerate(answers):
+        o = {"status": "ok", "errors": [], "leftover": 0}
+        if outs[i] is None or state["reqs"][i] is None:
+            raise core.HarnessError(f"call #{i} did not write a request or did not finish ({where})")
+        o["outcome"] = outs[i][0]
+        o["value" if outs[i][0] == "returned" else "exc"] = outs[i][1]
+        ctx = f"call #{'AB'[i]}; {where}"
+        if kind == "E":
+            sub: List[dict] = []
+            got.append(_judge_raise(o, code, (2, 0), "send_message", sub, ctx))
+            for v in sub:
+                v["sig"] = {**v["sig"], **scen}
+            viol.extend(sub)
+        else:
+            if outs[i][0] != "returned" or outs[i][1] != {"ok": i}:
+                what = repr(outs[i][1])[:120]
+                viol.append({"sig": {"class": "result-not-returned", **scen,
+                                     "got": outs[i][0] if outs[i][0] == "returned" else type(outs[i][1]).__name__},
+                             "msg": f"a call answered with a result {outs[i][0]} {what}; {ctx}"})
+            got.append("result")
+    if errors:
+        viol.append({"sig": {"class": "loop-error", **scen}, "msg": f"{errors[:2]}; {where}"})
+    return {"outcome": "pair:" + "+".join(got), "violations": viol[:10], "counters": {"pair_scenarios": 1, "pair_calls": 2}}
+
+
 def _run_part(ctl: explorer.Ctl, cfg: Dict[str, Any]) -> Dict[str, Any]:
     part = cfg["part"]
+    if part == "pair":
+        return _run_pair(cfg)
     if part == "order":
         return _run_order(cfg)
     if part == "sets":
@@ -639,6 +771,15 @@ def run(tier: str, only=None) -> core.Result:
     sched.debug_pass(res, "ii-send_message-all-codes", RUN, cfgs, every=41)
     samples += _pick("ii-send_message-all-codes", cfgs, note=f"each x {len(SHAPES)} shapes x 2 incoming routes")
 
+    # (ii') two calls in flight / in sequence, sharing the caller's params dict or not
+    pcfgs = [{"part": "pair", "sharing": sh, "callbacks": [a, b], "answers": ai, "mode": mode, "params": pi}
+             for sh in ("shared", "separate") for a in (False, True) for b in (False, True)
+             for ai in range(len(PAIR_ANSWERS)) for mode in ("A-first", "B-first", "sequential") for pi in range(len(PAIR_PARAMS))]
+    out = explorer.explore(RUN, pcfgs)
+    sched.absorb(res, "ii-two-calls-sharing-params", RUN, out, pcfgs)
+    samples += _pick("ii-two-calls-sharing-params", pcfgs)
+    sched.debug_pass(res, "ii-two-calls-sharing-params", RUN, pcfgs, every=17)
+
     # (iii) every typed request helper
     hcodes = boundary_codes() if tier == "quick" else codes
     cfgs = []
@@ -689,7 +830,8 @@ def run(tier: str, only=None) -> core.Result:
     cov["debug_logging_reruns"] = dbg_exec
     cov["errors_module_api"] = api
     cov["call_order_pairs"] = cnt.get("order_pairs", 0)
-    calls = cnt.get("order_sm_calls", 0) + cnt.get("sm_calls", 0) + cnt.get("helper_calls", 0) + cnt.get("baseline_calls", 0) + cnt.get("initpv_calls", 0)
+    cov["two_call_scenarios"] = cnt.get("pair_scenarios", 0)
+    calls = cnt.get("pair_calls", 0) + cnt.get("order_sm_calls", 0) + cnt.get("sm_calls", 0) + cnt.get("helper_calls", 0) + cnt.get("baseline_calls", 0) + cnt.get("initpv_calls", 0)
     cov["evaluations"] = cnt.get("fn_evaluations", 0) + calls
     cov["driven_calls"] = calls
     cov["function_evaluations"] = cnt.get("fn_evaluations", 0)
@@ -711,7 +853,10 @@ def run(tier: str, only=None) -> core.Result:
         "(i) is_retryable_error on every code; every public function / exception class of the errors module (introspection) called with 7 probe codes "
         "in every ordered pair (f, g) - after each call the module's tables must still equal the documented sets, is_retryable_error must agree on the "
         "boundary codes and send_message must classify all 14 named codes; the tables are also compared at the start and end of every execution; (ii) send_message on every code x shape x incoming object built by "
-        "{parse_message, JSONRPCMessage(...)}; (iii) every discovered request helper x argument profiles "
+        "{parse_message, JSONRPCMessage(...)}; two send_message calls on separate stream pairs, in flight together (answers in both orders) or one "
+        "after the other, with one params dict object shared between them or separate dicts (3 initial dicts incl. one with _meta), progress "
+        "callbacks on none/one/both, answered with error x error over 4 codes or error + result: each call must raise its own classified error / "
+        "return its own result; (iii) every discovered request helper x argument profiles "
         "{required only, all optionals, second Union arm} x "
         + ("boundary codes (named codes +-1, range edges, 0, +-1, +-200, 64-bit extremes)" if tier == "quick" else "every code of the grid")
         + " x shape; ping / resources_subscribe / resources_unsubscribe x every code of the grid in both tiers (quick: 2 shapes per code)"
